@@ -40,6 +40,7 @@ func init() {
 	register(stepEngine{})
 	register(multiEngine{})
 	register(copyEngine{})
+	register(rfEngine{})
 }
 
 // ---------------------------------------------------------------------------
@@ -296,6 +297,11 @@ func runBatch(eng Engine, seed uint64, checks int, tier string, skip int, isolat
 		if v != nil {
 			if kf := isKnown(v); kf != nil {
 				st.Known[kf.Property+" "+kf.Key]++
+				return
+			}
+			if os.Getenv("VERIF_COLLECT") != "" && v.Key != "" {
+				// triage aid: keep going and list every distinct keyed finding
+				st.Probes["COLLECT "+v.Class+" | "+v.Key]++
 				return
 			}
 			if !failedOnce {
@@ -886,6 +892,16 @@ func writeEvidence(cfg checkCfg, seed uint64, st *Stats, batches int, wall float
 }
 
 var checkConfigs = map[string]checkCfg{
+	"C04": {
+		prop: "C04", engine: "readerfault", level: "fault_enumeration", checksPerBatch: 6, minBatches: 16,
+		rule: "cases = generated program texts (workload generator, syntax zoo, interpreter fragments; <= 1500 bytes); for each text EVERY cut point n in [0,len] is delivered as a truncated stream through a simulated reader (1-byte / small / large / whole chunks, rune splits, (0,nil) reads, (n,EOF)) to parser.ParseFile and compared with parsing the same prefix as a string; run/compile/eval-level checks at statement boundaries and a sample of cuts; read errors after n bytes for every 4th n; whole-text chunkings through reader, []byte and *bytes.Buffer; every accepted tree is checked for spans and ast.Walk. evaluations = simulated deliveries. distinct_nontrivial = distinct (accepted tree hash | rejection message) outcomes over cut points strictly inside a text.",
+		assumptions: []string{
+			"claimed slice only: truncations of generated programs, any delivery of the bytes, read errors; 'arbitrary junk is rejected per the ES5 grammar' needs a grammar oracle and is outside deterministic simulation",
+			"oracles are differential against otto's own string route (no model of the grammar)",
+		},
+		real:      []string{"otto parser, lexer, ReadSource, Run/Compile/Eval entry points, ast.Walk, node span methods"},
+		simulated: []string{"the io.Reader (chunking, short/zero reads, errors, early EOF)"},
+	},
 	"C17": {
 		prop: "C17", engine: "copysim", level: "exploration", checksPerBatch: 10, minBatches: 16,
 		rule: "cases = histories of up to 10 operations {run program (heap builders x observers x mutators), Copy(node), generic mutation of the n-th reachable object, program aborted at step k, simultaneous programs on several nodes under the step scheduler} over a tree of up to 6 runtimes; after every operation every node's full heap dump (all objects reachable from the global object and intrinsics: class, extensibility, prototype link, property order, full descriptors, function source, primitive/date values; identity by discovery order) must equal the dump of its replay twin (a fresh runtime on which the node's lineage was re-executed), and every program must return the same result and host-call trace on node and twin; evaluations counts histories. distinct_nontrivial = distinct operation-kind sequences of histories that contain at least one Copy followed by a mutation or observation.",
